@@ -760,7 +760,13 @@ func c12PlaceCase(run *evid.Run, i int, j *Journal) {
 				case "entries":
 					loaded, err = w2.LoadEntries(heads, 0, &hx.LoadOpts{Concurrency: conc})
 				case "hash":
-					loaded, err = w2.LoadHash(heads[0].GetHash(), 0, &hx.LoadOpts{Concurrency: conc})
+					if (i+r)%2 == 0 {
+						// a caller that does not name the log (the id is optional): whatever the requested block is
+						lo := w2.LogOpts("")
+						loaded, err = ipfslog.NewFromEntryHash(w2.Ctx, cs.API(), w2.Idents[0], heads[0].GetHash(), lo, &ipfslog.FetchOptions{Concurrency: conc})
+					} else {
+						loaded, err = w2.LoadHash(heads[0].GetHash(), 0, &hx.LoadOpts{Concurrency: conc})
+					}
 				}
 			})
 			run.Count("placement_loads", 1)
